@@ -14,7 +14,7 @@ CHECKS = {
              "failure, 1 node loss). The REAL procedure runs on wire-level fakes for a shape x request x policy grid with "
              "a fault (fail/hang/node loss) at call boundaries from a dry-run census; every promotion event and every "
              "freeze attempt is projected to a row and TLC evaluates the same ClusterProps operators on the observed "
-             "ground truth (PromoRows.tla). Only the latter can raise a violation.",
+             "ground truth (PromoRows.tla). Only the latter can raise a violation. Every switchover activation of the real manager is also reduced to its sequence of mutating calls and checked to be a walk through the control skeleton that Switchover.tla implements (SwitchSkel.tla: SkelOrder on the model, Skel_Order on the rows; drift is logged, not a verdict).",
         design_ref="DESIGN.md 7/C01",
         note="E1-E6 (fake MySQL semantics), TLC, synctest; weak reading: members count by ground truth dead or alive",
         technique="TLA+ model of the switchover (TLC exhaustive) + trace/row validation of real runs on fakes by TLC"),
@@ -89,7 +89,7 @@ CHECKS = {
              "switchover activation (cut points from a dry-run census) for 2-4 node shapes, all request kinds, both "
              "successor choices; after 30 rounds the final ground truth is judged by TLC against the end-state "
              "operators of ClusterProps (request resolved, one writable recorded master, replicas follow, no "
-             "acknowledged loss). Switchover.tla with ManagerCrash at every label is model-checked alongside.",
+             "acknowledged loss). Switchover.tla with ManagerCrash at every label is model-checked alongside. Every switchover activation of the real manager is also reduced to its sequence of mutating calls and checked to be a walk through the control skeleton that Switchover.tla implements (SwitchSkel.tla: SkelOrder on the model, Skel_Order on the rows; drift is logged, not a verdict).",
         design_ref="DESIGN.md 7/C07",
         note="E1-E7; K=30 rounds; two classes of genuine defects are listed in known_findings.jsonl",
         technique="crash-point enumeration on real code over fakes; end states validated by TLC; TLA+ model with ManagerCrash"),
